@@ -125,6 +125,24 @@ DOCS = {
     'reent': '---\n- before\n- !reent x\n- after: &a [1]\n- *a\n',
 }
 DOC_IDS = sorted(DOCS)
+# documents that use the same names (tag handles, full tags, anchors, directives): cross-document leaks show
+# when such documents are neighbours, so the stream modes draw half of their streams from one group
+RELATED = [
+    ['tag_e', 'tag_e_verbatim', 'tag_e_undeclared'],
+    ['tag_bang', 'bang', 'tag_bang_verbatim'],
+    ['tag_dbl', 'dbl', 'types'],
+    ['anchor', 'anchor2', 'alias_undef_x', 'alias_undef_y', 'dup_anchor', 'rec_seq', 'e_dup_anchor_alias'],
+    ['yaml11', 'plain', 'e_yaml2', 'e_dup_yaml', 'map'],
+    ['merge', 'merge', 'anchor', 'map'],
+]
+
+
+def related_docs(r, n, valid_only=False):
+    group = r.choice(RELATED)
+    docs = [r.choice(group) for _ in range(n)]
+    if valid_only:
+        docs = [d for d in docs if d in VALID_DOCS] or ['plain']
+    return docs
 VALID_DOCS = [d for d in DOC_IDS if not d.startswith('e_') and d not in ('alias_undef_x', 'alias_undef_y', 'tag_e_undeclared', 'reent')]
 
 
@@ -519,6 +537,8 @@ def gen_op(r, reent_ok=True):
 def gen_gen_op(r):
     api = r.choice(GEN_APIS)
     docs = [r.choice([d for d in DOC_IDS if d != 'reent']) for _ in range(r.randint(2, 5))]
+    if r.random() < 0.3:
+        docs = related_docs(r, r.randint(2, 5))
     if r.random() < 0.15:
         docs.insert(r.randrange(2), 'bigmb')
     return {'api': api, 'cls': r.choice(LOADERS), 'docs': docs, 'terminate': True, 'form': r.choice(['bstream', 'tstream']),
@@ -528,26 +548,29 @@ def gen_gen_op(r):
 def generate(seed, tier):
     r = kernel.rng(seed, 'case')
     x = r.random()
-    if x < 0.2:
+    if x < 0.15:
         docs = [r.choice([d for d in DOC_IDS if d != 'reent']) for _ in range(r.randint(2, 6))]
-        if r.random() < 0.25:
+        if r.random() < 0.5:
+            docs = related_docs(r, r.randint(2, 5))
+        elif r.random() < 0.25:
             # the same document several times in one stream (what a log or a stream of records looks like)
             docs = [r.choice([d for d in VALID_DOCS if d != 'bigmb'])] * r.randint(2, 5) + docs[:1]
             r.shuffle(docs)
         return {'mode': 'stream_load', 'docs': docs, 'api': r.choice(GEN_APIS), 'cls': r.choice(LOADERS),
                 'form': r.choice(['str', 'bytes', 'bstream', 'tstream']), 'chunk': r.choice([1, 3, 16, 100, None])}
-    if x < 0.24:
+    if x < 0.25:
         via = r.choice(['emit', 'emit', 'serialize_all', 'serialize_all'])
-        case = {'mode': 'stream_emit', 'via': via, 'docs': [r.choice(VALID_DOCS) for _ in range(r.randint(2, 5))], 'cls': r.choice(DUMPERS),
+        case = {'mode': 'stream_emit', 'via': via, 'cls': r.choice(DUMPERS),
+                'docs': related_docs(r, r.randint(2, 5), valid_only=True) if r.random() < 0.6 else [r.choice(VALID_DOCS) for _ in range(r.randint(2, 5))],
                 'opts': r.choice(EMIT_OPTS if via == 'emit' else sorted(SERIALIZE_OPTS))}
         if via == 'serialize_all' and r.random() < 0.5:
             case['same_node'] = r.randint(2, 3)
             case['docs'] = case['docs'][:1]
         return case
-    if x < 0.27:
+    if x < 0.28:
         return {'mode': 'stream_dump', 'evolve': r.randint(2, 5), 'vals': [], 'cls': r.choice(DUMPERS[:4]),
                 'opts': r.choice(['none', 'canonical', 'flow', 'explicit', 'unsorted', 'dq'])}
-    if x < 0.34:
+    if x < 0.35:
         n = r.randint(2, 5)
         opts = r.choice(['none', 'canonical', 'flow', 'tags', 'version', 'explicit', 'unicode', 'unsorted', 'dq'])
         return {'mode': 'stream_dump', 'vals': [r.choice([v for v in VALUE_IDS if not (v == 'set' and opts == 'unsorted')]) for _ in range(n)],
